@@ -184,6 +184,14 @@ pub(super) mod udp {
 
         fn decode(&mut self, src: &mut BytesMut) -> Result<Option<Self::Item>, Self::Error> {
             if !src.is_empty() {
+                // address, length, CRLF, payload: wait until the whole datagram frame has arrived
+                if src.remaining() < 2 {
+                    return Ok(None);
+                }
+                let header_len = address::try_decode_at(src, 0)? + 2 + trojan::CR_LF.len();
+                if src.remaining() < header_len || src.remaining() < header_len + u16::from_be_bytes([src[header_len - 4], src[header_len - 3]]) as usize {
+                    return Ok(None);
+                }
                 let addr = address::decode(src)?;
                 let len = src.get_u16();
                 src.advance(trojan::CR_LF.len());
